@@ -55,6 +55,9 @@ pub struct Scenario {
     pub ext: usize,
     pub members: Vec<MemberSpec>,
     pub action: usize,
+    /// caller-supplied, well-formed Pedersen generators with an unusual relationship (world::related_pedersen)
+    #[serde(default)]
+    pub pc_variant: u8,
 }
 
 pub struct C02;
@@ -69,7 +72,11 @@ fn make_msg<G: Group>(sc: &Scenario, ms: &MemberSpec) -> Option<Msg<G>> {
 
 fn make_msg_inner<G: Group>(sc: &Scenario, ms: &MemberSpec) -> Option<Msg<G>> {
     let cfg = Config { bits: sc.bits, m: ms.m, cap: ms.cap, ext: sc.ext };
-    let built = build::<G>(&cfg, &ms.wit);
+    let pc = related_pedersen::<G>(sc.ext, sc.pc_variant, sc.bits);
+    let built = match &pc {
+        Some(pc) => build_with_params::<G>(custom_params::<G>(cfg.bits, cfg.cap, pc.clone()), &cfg, &ms.wit),
+        None => build::<G>(&cfg, &ms.wit),
+    };
     match &ms.source {
         Source::Honest | Source::Faulted { .. } => {
             let proof = match prove_mode::<G>(&ms.ctx, &built.statement, &built.witness, &RngMode::Healthy(ms.rng_seed)).0 {
@@ -77,6 +84,7 @@ fn make_msg_inner<G: Group>(sc: &Scenario, ms: &MemberSpec) -> Option<Msg<G>> {
                 _ => return None,
             };
             let mut msg = Msg::<G>::honest(&cfg, &ms.wit, &ms.ctx, &built, &proof);
+            msg.pc = pc;
             if let Source::Faulted { faults, fault_seed } = &ms.source {
                 let fr = SimRng::new(*fault_seed);
                 for (i, f) in faults.iter().enumerate() {
@@ -105,7 +113,7 @@ fn make_msg_inner<G: Group>(sc: &Scenario, ms: &MemberSpec) -> Option<Msg<G>> {
                 bits: sc.bits,
                 cap: ms.cap,
                 ext: sc.ext,
-                pc: None,
+                pc,
                 commitments,
                 promises: ms.wit.promises.clone(),
                 seed: None,
@@ -114,6 +122,21 @@ fn make_msg_inner<G: Group>(sc: &Scenario, ms: &MemberSpec) -> Option<Msg<G>> {
                 force_seed: None,
             })
         },
+    }
+}
+
+fn clone_msg<G: Group>(m: &Msg<G>) -> Msg<G> {
+    Msg {
+        bits: m.bits,
+        cap: m.cap,
+        ext: m.ext,
+        pc: m.pc.clone(),
+        commitments: m.commitments.clone(),
+        promises: m.promises.clone(),
+        seed: m.seed,
+        ctx: m.ctx.clone(),
+        proof: m.proof.clone(),
+        force_seed: m.force_seed,
     }
 }
 
@@ -564,6 +587,100 @@ fn run_free(sc: &Scenario, st: &mut RunStats) -> Vec<Violation> {
             ));
             return out;
         }
+        // adversarially structured follow-up: two members receive offsetting defects on d1[c] tuned to factors
+        // the verifier was seen to use. Each of them then fails the reference relation, so the batch must be
+        // rejected - whatever the verifier does with its factors. Three ways of tuning: both at once against
+        // the factors of the honest run; or one member first, and the other against the factors observed with
+        // that member already in place (either order)
+        if all_zero {
+            let (x, y) = (0usize, k - 1);
+            if x != y && opened[x].parts.b != opened[y].parts.b {
+                let coord = (sc.action / 3) % sc.ext;
+                let c = Scalar::from(0xC02u64) + ws[x];
+                let bump = |parts: &ProofParts, d: Scalar| -> ProofParts {
+                    let mut p = parts.clone();
+                    p.d1[coord] = (ProofParts::scalar(&p.d1[coord]).unwrap() + d).to_bytes();
+                    p
+                };
+                let weights_with = |px: &ProofParts, py: &ProofParts| -> Option<(Scalar, Scalar)> {
+                    let mut proofs2 = proofs.clone();
+                    proofs2[x] = FreePoint::from_bytes(&px.to_bytes()).ok()?;
+                    proofs2[y] = FreePoint::from_bytes(&py.to_bytes()).ok()?;
+                    let o = observe_verify(&ctxs, &sts, &proofs2, a).ok()?;
+                    let last = o.msm.last()?;
+                    let w_of = |b: &[u8; 32]| -> Option<Scalar> {
+                        let bp = FreePoint::dec(b)?;
+                        let hits: Vec<Scalar> = last.dynamic.iter().filter(|(_, p)| *p == bp).map(|(s, _)| *s).collect();
+                        if hits.len() == 1 { Some(-hits[0]) } else { None }
+                    };
+                    Some((w_of(&px.b)?, w_of(&py.b)?))
+                };
+                for variant in 0..3usize {
+                    let (px, py, wx, wy) = match variant {
+                        0 => (bump(&opened[x].parts, c * ws[y]), bump(&opened[y].parts, -c * ws[x]), ws[x], ws[y]),
+                        1 => {
+                            // y first, x tuned to what the verifier does with y in place
+                            let py = bump(&opened[y].parts, c);
+                            let Some((wx, wy)) = weights_with(&opened[x].parts, &py) else { continue };
+                            if wx == Scalar::ZERO {
+                                continue;
+                            }
+                            (bump(&opened[x].parts, -(wy * c) * wx.invert()), py, wx, wy)
+                        },
+                        _ => {
+                            let px = bump(&opened[x].parts, c);
+                            let Some((wx, wy)) = weights_with(&px, &opened[y].parts) else { continue };
+                            if wy == Scalar::ZERO {
+                                continue;
+                            }
+                            (px, bump(&opened[y].parts, -(wx * c) * wy.invert()), wx, wy)
+                        },
+                    };
+                    let ox = Opened { st: opened[x].st.clone(), proof: opened[x].proof.clone(), parts: px.clone(), msg: Msg { proof: px.to_bytes(), ..clone_msg(&opened[x].msg) } };
+                    let oy = Opened { st: opened[y].st.clone(), proof: opened[y].proof.clone(), parts: py.clone(), msg: Msg { proof: py.to_bytes(), ..clone_msg(&opened[y].msg) } };
+                    let (RefVerdict::Residual(rx), RefVerdict::Residual(ry)) = (ref_for::<G>(&ox, &obs.views[x].challenges), ref_for::<G>(&oy, &obs.views[y].challenges)) else {
+                        continue;
+                    };
+                    // the pair is tuned: under the factors observed the two defects cancel exactly
+                    let mut tuned = FreePoint::zero();
+                    tuned.add_scaled(&wx, &rx);
+                    tuned.add_scaled(&wy, &ry);
+                    if rx.is_zero() || ry.is_zero() || !tuned.is_zero() {
+                        continue;
+                    }
+                    let (Ok(qx), Ok(qy)) = (FreePoint::from_bytes(&px.to_bytes()), FreePoint::from_bytes(&py.to_bytes())) else { continue };
+                    let mut proofs2 = proofs.clone();
+                    proofs2[x] = qx;
+                    proofs2[y] = qy;
+                    let r2 = verify::<G>(&ctxs, &sts, &proofs2, a);
+                    st.evals += 1;
+                    st.fault(if variant == 0 { "tuned_cancelling_pair_resubmitted" } else { "tuned_pair_one_member_first" });
+                    match r2 {
+                        Err(c) => {
+                            out.push(Violation::new("verifier_panicked", "panic", format!("{:?}", c)));
+                            return out;
+                        },
+                        Ok(Ok(_)) => {
+                            out.push(Violation::new(
+                                "accepted_where_reference_rejects",
+                                "tuned pair",
+                                format!(
+                                    "batch of {} ({:?}): members {} and {} received offsetting defects on d1[{}] computed from factors the verifier was seen to use ({}); each fails the reference relation but the batch was accepted",
+                                    k,
+                                    srcs,
+                                    x,
+                                    y,
+                                    coord,
+                                    ["both at once, factors of the honest run", "last member first, first member tuned to the factors then observed", "first member first, last member tuned to the factors then observed"][variant]
+                                ),
+                            ));
+                            return out;
+                        },
+                        Ok(Err(_)) => {},
+                    }
+                }
+            }
+        }
     }
     out
 }
@@ -676,7 +793,7 @@ impl Check for C02 {
     }
 
     fn rule(&self) -> String {
-        "each seeded run delivers 1-4 messages to a simulated verifier: honest proofs, honest proofs with 1-2 channel faults of every kind (bit flip, scalar/point replacement incl. identity and undecodable, round count +-1, commitment replacement/swap, promise changes, context, extension tag, bit length, generators), and proofs crafted from fresh group elements and random scalars (also with a wrong round count); the Fiat-Shamir challenges the verifier actually drew are read from the merlin tap by ordinal and fed to an independent unoptimised evaluation of the published relation (explicit y-powers, explicit d vector, generators folded by definition, commitments shifted by promises); free module: the verifier's residual (result of its final multiscalar multiplication) must equal w * reference residual coefficient by coefficient (batch: sum of w_i * reference_i with w_i read from the B_i scalar); Ristretto: verdicts must agree; shape defects must be refused; one evaluation = one verify_batch call compared with the reference; non-trivial = a fault or crafted proof or batch; distinct = distinct event-log hashes".into()
+        "each seeded run delivers 1-4 messages to a simulated verifier: honest proofs, honest proofs with 1-2 channel faults of every kind (bit flip, scalar/point replacement incl. identity and undecodable, round count +-1, commitment replacement/swap, promise changes, context, extension tag, bit length, generators), and proofs crafted from fresh group elements and random scalars (also with a wrong round count); the Fiat-Shamir challenges the verifier actually drew are read from the merlin tap by ordinal and fed to an independent unoptimised evaluation of the published relation (explicit y-powers, explicit d vector, generators folded by definition, commitments shifted by promises); free module: the verifier's residual (result of its final multiscalar multiplication) must equal w * reference residual coefficient by coefficient (batch: sum of w_i * reference_i with w_i read from the B_i scalar); Ristretto: verdicts must agree; shape defects must be refused; one evaluation = one verify_batch call compared with the reference; non-trivial = a fault or crafted proof or batch; distinct = distinct event-log hashes Adversarially structured follow-up: after every accepted honest batch the first and last member receive offsetting defects on one d1 coordinate tuned to factors the verifier was seen to use (both at once, or one member first and the other against the factors then observed); the reference says each member fails, so the batch must be rejected. One scenario in six runs under caller-supplied, well-formed Pedersen generators with an unusual relationship (two equal, one twice another, one equal to a vector generator, H = -G_0).".into()
     }
 
     fn assumptions(&self) -> Vec<String> {
@@ -758,16 +875,24 @@ impl Check for C02 {
                 }
             }
         }
+        // a quarter of the multi-member batches is entirely honest (the tuned-pair follow-up needs an accepted batch)
+        if members.len() >= 2 && rng.chance(1, 4) {
+            members.iter_mut().for_each(|m| m.source = Source::Honest);
+        }
         Scenario {
             group: if ristretto { "ristretto".into() } else { "free".into() },
             bits: cfg.bits,
             ext: cfg.ext,
             members,
             action: rng.usize_below(3),
+            pc_variant: if rng.chance(1, 6) { 1 + rng.below(5) as u8 } else { 0 },
         }
     }
 
     fn execute(&self, sc: &Scenario, st: &mut RunStats) -> Vec<Violation> {
+        if sc.pc_variant != 0 {
+            st.fault("caller_supplied_related_generators");
+        }
         for m in &sc.members {
             match &m.source {
                 Source::Honest => {},
@@ -809,6 +934,11 @@ impl Check for C02 {
 
     fn shrink(&self, sc: &Scenario) -> Vec<Scenario> {
         let mut v = Vec::new();
+        if sc.pc_variant != 0 {
+            let mut s = sc.clone();
+            s.pc_variant = 0;
+            v.push(s);
+        }
         if sc.members.len() > 1 {
             for i in 0..sc.members.len() {
                 let mut s = sc.clone();
@@ -899,7 +1029,7 @@ impl Check for C02 {
             "shape_rejection_expected", "crafted_proof", "crafted_wrong_round_count", "m_ge_8", "capacity_gt_m",
             "nonzero_promise", "ext_1", "ext_2", "ext_3", "ext_4", "ext_5", "ext_6", "flip_bit", "replace_scalar",
             "replace_point", "drop_round", "add_round", "replace_commitment", "promise", "swap_commitments", "bits",
-            "generator_h", "generator_g", "retag_extension", "honest_member_followed_by_altered_duplicate", "aggregated_statement_carrying_a_seed",
+            "generator_h", "generator_g", "retag_extension", "honest_member_followed_by_altered_duplicate", "aggregated_statement_carrying_a_seed", "tuned_cancelling_pair_resubmitted", "tuned_pair_one_member_first", "caller_supplied_related_generators",
         ]
     }
 }
